@@ -370,20 +370,31 @@ class Run2(PL.ImplRun):
         if br.req["key"] == 0:
             pls = [(TOPICS.index(t), p, PL.parse_message_set(ms)) for (t, p, ms) in br.req["payloads"]]
             if not expect:
+                fault = self.acks0_faults.pop(0) if self.acks0_faults else False
+                if fault == "pending":
+                    # the broker client's connection does not come up: the request stays queued in the broker client,
+                    # its Deferred pending, until the environment answers it (connection up: "bans"), fails it, or
+                    # the client's own request time-out cancels it ("silent")
+                    return d
                 br.done = True
-                if self.acks0_faults and self.acks0_faults.pop(0):
+                if fault:
                     # the broker client could not queue the bytes (closed / connection gone): nothing handed over
                     from twisted.python.failure import Failure
                     d.errback(Failure(PL.exc_of_kind(PL.K_CONNDONE)))
                     return d
                 # acks=0: the broker client reports success as soon as the bytes are queued; the broker applies them
-                self.handed.append((len(self.trace), node, expect, br.req["acks"], pls))
-                for (tn, p, e, _o) in self.cluster.produce(len(self.trace), node, br.req["payloads"], {}):
-                    self.acks0_err[(TOPICS.index(tn), p)] = e      # the client never learns about it
-                d.callback(None)
+                self._acks0_written(br, pls)
             else:
                 self.handed.append((len(self.trace), node, expect, br.req["acks"], pls))
         return d
+
+    def _acks0_written(self, br, pls=None):
+        if pls is None:
+            pls = [(TOPICS.index(t), p, PL.parse_message_set(ms)) for (t, p, ms) in br.req["payloads"]]
+        self.handed.append((len(self.trace), br.node, br.expect, br.req["acks"], pls))
+        for (tn, p, e, _o) in self.cluster.produce(len(self.trace), br.node, br.req["payloads"], {}):
+            self.acks0_err[(TOPICS.index(tn), p)] = e      # the client never learns about it
+        br.d.callback(None)
 
     def _cancelled(self, rid):
         self.breqs[rid].done = True     # Twisted errbacks CancelledError itself
@@ -633,7 +644,9 @@ class Run2(PL.ImplRun):
         br.done = True
         q = br.req
         plan = plan or {}
-        if q["key"] == 0:
+        if q["key"] == 0 and not br.expect:
+            self._acks0_written(br)        # acks=0 request that was waiting for its connection: written now
+        elif q["key"] == 0:
             pl = {(t, p): e for (t, p, e) in plan.get("errs", [])}
             resps = self.cluster.produce(len(self.trace), br.node, q["payloads"], pl)
             br.d.callback(enc_produce_response(q["ver"], q["corr"], resps))
